@@ -36,6 +36,10 @@ impl Prop {
 }
 
 pub struct Cfg {
+    /// property id violations are reported under (C12 reuses C01's comparison)
+    pub pid: &'static str,
+    /// signature used to group violations
+    pub sig: fn(&[u32]) -> String,
     pub prop: Prop,
     pub fuel: u64,
     pub ref_limit: u64,
@@ -220,8 +224,8 @@ pub fn eval_pattern(cfg: &Cfg, ast: &Node, flags: Flags, hays: &[Hay], known: &K
         }
     };
     st.add("patterns_evaluated", 1);
-    let pid = cfg.prop.id();
-    let sh = || shape(&pat);
+    let pid = cfg.pid;
+    let sh = || (cfg.sig)(&pat);
     macro_rules! vio {
         ($what:expr, $hay:expr, $s:expr, $exp:expr, $got:expr) => {{
             let what: &str = $what;
@@ -697,7 +701,7 @@ pub fn hays_for(sp: &SweepProfile, thorough: bool, prop: Prop) -> Vec<Hay> {
 /// Run one property over a list of profiles. Returns merged statistics.
 pub fn run(run: &mut Run, prop: Prop, profile_names: &[&str]) -> Stats {
     let thorough = run.thorough();
-    let cfg = Cfg { prop, fuel: if thorough { 2_000_000 } else { 300_000 }, ref_limit: 3_000_000, k_ratio: 256 };
+    let cfg = Cfg { pid: prop.id(), sig: shape, prop, fuel: if thorough { 2_000_000 } else { 300_000 }, ref_limit: 3_000_000, k_ratio: 256 };
     let total = drive(run, prop.id(), profile_names, &|sp, th| hays_for(sp, th, prop), &|ast, f, hays, known, st| eval_pattern(&cfg, ast, f, hays, known, st));
     if total.get("undecided_fuel") > 0 && prop != Prop::C05 {
         run.caps.push(format!("{} searches cut by the fuel horizon (counted as undecided, see C05)", total.get("undecided_fuel")));
